@@ -274,6 +274,110 @@ theorem C12_accepted_iff_all_resolved (T : Table) (refs : List Ref) (os : List (
     resolveRefs T refs [] = (os, []) ↔ AllResolved T refs os :=
   ⟨C12_accepted_all_resolved T refs os hne hnd, C12_all_resolved_accepted T refs os hnd⟩
 
+/-! ## `resolve_symbols` as a whole -/
+
+theorem allSome_eq_some (l : List (Option Path)) (ps : List Path) :
+    allSome l = some ps ↔ l = ps.map some := by
+  induction l generalizing ps with
+  | nil =>
+    cases ps <;> simp [allSome]
+  | cons x xs ih =>
+    cases x with
+    | none => cases ps <;> simp [allSome]
+    | some p =>
+      cases ps with
+      | nil => simp [allSome]
+      | cons q qs =>
+        simp only [allSome, Option.map_eq_some_iff, List.map_cons, List.cons.injEq,
+          Option.some.injEq]
+        constructor
+        · intro ⟨a, ha, hpq⟩
+          obtain ⟨rfl, rfl⟩ := hpq
+          exact ⟨rfl, (ih _).1 ha⟩
+        · intro ⟨hpq, hxs⟩
+          exact ⟨qs, (ih _).2 hxs, by rw [hpq]; exact ⟨rfl, rfl⟩⟩
+
+/-- **End to end.**  `resolve_symbols` (table construction, imports, the pass over the plain
+references, the pass over the heads of the field references — sharing one error list) accepts a
+module set and binds the references to `ra` / the heads to `rb` **iff** no scope is given a name
+twice (`fullTable` reports no error), no reference stands outside every type, and every
+reference is resolvable per the scoping rules, to exactly these definitions.  So an accepted
+module has every name bound to the one lexically visible definition, and a module is rejected
+only if a name is defined twice, undefined, or visible from two scopes. -/
+theorem C12_resolve_symbols_iff (M : ModuleDesc) (refs : List Ref) (frefs : List FRef)
+    (ra rb : List Path)
+    (hne : ∀ r ∈ refs, r.names ≠ []) (hne' : ∀ f ∈ frefs, f.path ≠ [])
+    (hnd : ∀ r ∈ refs, r.ctx.WellFormed) (hnd' : ∀ f ∈ frefs, f.ctx.WellFormed) :
+    (match resolveSymbols M refs frefs with
+      | .resolved a b => a = ra ∧ b = rb
+      | _ => False) ↔
+      ((fullTable M).2 = [] ∧
+       (refs ++ frefs.map headRef).any (fun r => r.ctx.types.isEmpty) = false ∧
+       AllResolved (fullTable M).1 refs (ra.map some) ∧
+       AllResolved (fullTable M).1 (frefs.map headRef) (rb.map some)) := by
+  have hneH : ∀ r ∈ frefs.map headRef, r.names ≠ [] := by
+    intro r hr
+    obtain ⟨f, hf, rfl⟩ := List.mem_map.1 hr
+    have := hne' f hf
+    unfold headRef
+    cases hp : f.path with
+    | nil => exact absurd hp this
+    | cons p ps => simp
+  have hndH : ∀ r ∈ frefs.map headRef, r.ctx.WellFormed := by
+    intro r hr
+    obtain ⟨f, hf, rfl⟩ := List.mem_map.1 hr
+    have := hnd' f hf
+    unfold headRef
+    cases hp : f.path <;> exact this
+  unfold resolveSymbols
+  simp only
+  by_cases h1 : (fullTable M).2 = []
+  · by_cases h2 : (refs ++ frefs.map headRef).any (fun r => r.ctx.types.isEmpty) = true
+    · simp [h1, h2]
+    · simp only [h1, ne_eq, not_true_eq_false, if_false, h2, Bool.false_eq_true, true_and]
+      simp only [Bool.not_eq_true] at h2
+      obtain ⟨more, hm⟩ := resolveRefs_errs_prefix (fullTable M).1 (frefs.map headRef)
+        (resolveRefs (fullTable M).1 refs []).2
+      by_cases h3 : (resolveRefs (fullTable M).1 (frefs.map headRef)
+          (resolveRefs (fullTable M).1 refs []).2).2 = []
+      · simp only [h3, not_true_eq_false, if_false]
+        rw [h3] at hm
+        have ha2 : (resolveRefs (fullTable M).1 refs []).2 = [] :=
+          (List.append_eq_nil_iff.1 hm.symm).1
+        rw [ha2] at h3 ⊢
+        have hA := C12_accepted_iff_all_resolved (fullTable M).1 refs
+          (resolveRefs (fullTable M).1 refs []).1 hne hnd
+        have hB := C12_accepted_iff_all_resolved (fullTable M).1 (frefs.map headRef)
+          (resolveRefs (fullTable M).1 (frefs.map headRef) []).1 hneH hndH
+        have hA' := hA.1 (Prod.ext rfl ha2)
+        have hB' := hB.1 (Prod.ext rfl h3)
+        constructor
+        · intro h
+          cases hxa : allSome (resolveRefs (fullTable M).1 refs []).1 with
+          | none => simp [hxa] at h
+          | some xa =>
+            cases hxb : allSome (resolveRefs (fullTable M).1 (frefs.map headRef) []).1 with
+            | none => simp [hxa, hxb] at h
+            | some xb =>
+              simp only [hxa, hxb] at h
+              obtain ⟨rfl, rfl⟩ := h
+              rw [allSome_eq_some] at hxa hxb
+              rw [← hxa, ← hxb]
+              exact ⟨hA', hB'⟩
+        · intro ⟨hRa, hRb⟩
+          have e1 := C12_all_resolved_accepted _ _ _ hnd hRa
+          have e2 := C12_all_resolved_accepted _ _ _ hndH hRb
+          rw [e1, e2]
+          simp only [(allSome_eq_some _ _).2 rfl, and_self]
+      · simp only [h3, not_false_eq_true, if_true, false_iff, not_and]
+        intro hRa hRb
+        have e1 := C12_all_resolved_accepted _ _ _ hnd hRa
+        have e2 := C12_all_resolved_accepted _ _ _ hndH hRb
+        rw [e1] at h3
+        rw [e2] at h3
+        exact h3 rfl
+  · simp [h1]
+
 /-! ## Duplicate definitions -/
 
 /-- `_construct_symbol_tables` accepts a module set iff no scope is given the same name twice
@@ -463,6 +567,14 @@ example :
                      ⟨ctxBar, [("Foo", 22), ("Qux", 23)], 22, false⟩] [] =
       ([some ["m.emb", "Foo", "Qux"], some ["", "UInt"], some ["m.emb", "Foo", "Qux"]], []) := by
   decide
+
+/-- Non-vacuity of `C12_resolve_symbols_iff`: `exM` with the type references of its two fields
+and one field reference (`ln`, the abbreviation, inside `Foo`) is accepted as a whole. -/
+example :
+    (match resolveSymbols exM [⟨ctxFoo, [("UInt", 21)], 21, false⟩, ⟨ctxBar, [("Foo", 22), ("Qux", 23)], 22, false⟩]
+        [⟨ctxFoo, [⟨"ln", 30, 31⟩]⟩] with
+      | .resolved a b => decide (a = [["", "UInt"], ["m.emb", "Foo", "Qux"]] ∧ b = [["m.emb", "Foo", "long_name"]])
+      | _ => false) = true := by decide
 
 /-- `struct Foo: x`, `struct Bar: Foo f; let g = f; … g.x …, … g.y …, … x.z …` -/
 def exE : FEnv :=
